@@ -202,9 +202,18 @@ def suite_compiled(ctx, res, n):
             got = tuple(op.getTransform())
             res.count(key=("compiled", stable_hash([fr(v) for v in t])), nontrivial=True)
             res.stat("compiled:" + kind)
-            # PaintTransform stores 16.16 numbers; the specialised forms are chosen only for exactly representable operands
-            tol = 2.0 ** -16 if kind == "PaintTransform" else 1e-6 * (1 + max(abs(float(v)) for v in t))
-            if any(abs(a - float(b)) > tol for a, b in zip(got, t)):
+            # what the binary can hold: PaintTransform stores 16.16 numbers; translations and centres are int16 (chosen only when integral: exact);
+            # scale factors are F2Dot14 (half a step = 2^-15), and a scale error moves the image of the origin by (error x centre)
+            up = p.to_ufo_paint([black])
+            cxy = (abs(float(up.get("centerX", 0))), abs(float(up.get("centerY", 0))))
+            if kind == "PaintTransform":
+                tols = [2.0 ** -16 + 1e-9] * 6
+            elif kind == "PaintTranslate":
+                tols = [1e-9, 1e-9, 1e-9, 1e-9] + [1e-6 * (1 + abs(float(v))) for v in t[4:]]
+            else:
+                step = 2.0 ** -15 + 1e-9
+                tols = [step, 1e-9, 1e-9, step, step * cxy[0] + 1e-6 * (1 + abs(float(t[4]))), step * cxy[1] + 1e-6 * (1 + abs(float(t[5])))]
+            if any(abs(a - float(b)) > tl for a, b, tl in zip(got, t, tols)):
                 res.add_cex(f"the compiled {kind} denotes {tuple(round(v, 6) for v in got)}, not the affine it was asked to encode",
                             {"call": "transformed(...).to_ufo_paint -> COLR", "transform": [fr(v) for v in t], "compiled": [float(v) for v in got],
                              "ufo_paint": repr(p.to_ufo_paint([black]))[:300]}, {"site": "compiled-denotes", "transform": [fr(v) for v in t]})
